@@ -83,6 +83,7 @@ func (k Keeper) SetPOAPower(ctx context.Context, valOpBech32 string, newShares i
 	}
 
 	// When we SetValidatorByPowerIndex, the Tokens are used to get the shares of power for CometBFT consensus (voting_power).
+	currentTokens := val.Tokens
 	val.Tokens = sdkmath.NewIntFromUint64(uint64(newShares))
 
 	// slash all the validator's tokens (100%)
@@ -96,9 +97,11 @@ func (k Keeper) SetPOAPower(ctx context.Context, valOpBech32 string, newShares i
 
 		height := sdk.UnwrapSDKContext(ctx).BlockHeight()
 
-		normalizedToken := k.stakingKeeper.TokensFromConsensusPower(ctx, currentPower)
+		// Slash burns factor * power * power-reduction, capped by the validator's tokens: a power just above what the
+		// validator holds now (which differs from its last power when it was changed earlier in this block) burns them all.
+		slashPower := k.stakingKeeper.TokensToConsensusPower(ctx, currentTokens) + 1
 
-		if _, err := k.stakingKeeper.Slash(ctx, sdk.GetConsAddress(pk), height, normalizedToken.Int64(), sdkmath.LegacyOneDec()); err != nil {
+		if _, err := k.stakingKeeper.Slash(ctx, sdk.GetConsAddress(pk), height, slashPower, sdkmath.LegacyOneDec()); err != nil {
 			return stakingtypes.Validator{}, err
 		}
 		// The slash re-indexed the validator at zero power. Without an index entry x/staking's EndBlocker finds it only in
